@@ -17,7 +17,7 @@ import operator
 from harness import common, gen, sigs, sexp_types, containers as C
 
 from pyasn1 import error
-from pyasn1.type import univ, char, useful, base
+from pyasn1.type import univ, char, useful, base, tag
 from pyasn1.codec.ber import encoder as ber_encoder
 from pyasn1.codec.der import encoder as der_encoder
 from pyasn1.codec.cer import encoder as cer_encoder
@@ -609,6 +609,41 @@ def schema_scalar_checks(rep):
                 rep.count('schema-scalar-returns-the-noValue-sentinel')     # not data: any use of it raises PyAsn1Error
                 continue
             rep.fail('schema-scalar-returns-data-' + name, '%s() %s returned %r' % (cls.__name__, name, res), replay)
+    # comparisons between two objects: a schema object against another schema object (same class, a distinct instance;
+    # another class), against a value object, either side; membership tests that compare
+    pair_ops = [('eq', lambda a, b: a == b), ('ne', lambda a, b: a != b), ('lt', lambda a, b: a < b), ('le', lambda a, b: a <= b),
+                ('gt', lambda a, b: a > b), ('ge', lambda a, b: a >= b), ('in-list', lambda a, b: a in [b]),
+                ('list-count', lambda a, b: [b].count(a)), ('list-index', lambda a, b: [b].index(a)),
+                ('in-tuple', lambda a, b: a in (b,))]
+    for cls in SCALAR_CLASSES:
+        schema = cls()
+        if schema.isValue:
+            continue
+        others = [('same-class-schema', cls()), ('value', cls(SAMPLE[cls])),
+                  ('other-class-schema', (univ.OctetString if cls is not univ.OctetString else univ.Integer)()),
+                  ('derived-schema', cls().subtype(implicitTag=tag.Tag(tag.tagClassContext, tag.tagFormatSimple, 1)))]
+        for oname, other in others:
+            for name, f in pair_ops:
+                for flipped in (False, True):
+                    a, b = (other, schema) if flipped else (schema, other)
+                    canon = 'schema-scalar-pair %s %s %s %s' % (cls.__name__, oname, name, flipped)
+                    rep.case(canon, nontrivial=True)
+                    rep.count('schema-scalar-pairs')
+                    replay = {'kind': 'schema-scalar-pair', 'class': cls.__name__, 'other': oname, 'op': name, 'flipped': flipped}
+                    try:
+                        res = f(a, b)
+                    except error.PyAsn1Error:
+                        continue
+                    except ValueError as e:
+                        if name == 'list-index' and 'not in list' in str(e):
+                            res = 'not-in-list'
+                        else:
+                            rep.fail('schema-scalar-leak-ValueError-' + name, '%s: %s' % (canon, e), replay)
+                            continue
+                    except Exception as e:  # noqa
+                        rep.fail('schema-scalar-leak-%s-%s' % (type(e).__name__, name), '%s raised %s: %s' % (canon, type(e).__name__, e), replay)
+                        continue
+                    rep.fail('schema-scalar-returns-data-' + name, '%s returned %r' % (canon, res), replay)
     # the plug table itself: every dunder NoValue is meant to plug raises
     nv = base.noValue
     for typ in (str, int, list, dict):
